@@ -217,15 +217,31 @@ def scenario(rng, kind):
         if rng.random() < 0.4:
             prog.append("stopace %d %d" % (s, rng.choice([1, 2, 5])))
     prog.append("init")
+    if kind in ("basic", "monitor", "abort") and not trig and rng.random() < 0.12:
+        # a camera whose frame call sometimes times out: Device_Ok with zero bytes ("no frame yet"); the runtime cancels the write and
+        # asks again -- such polls are not frames (outside the model: judged by the oracle only)
+        for idx in cams:
+            if rng.random() < 0.8:
+                prog.append("camempty %d %d" % (idx, rng.choice([2, 3, 4, 7])))
     nacq = rng.choice([1, 1, 2, 3]) if kind != "basic" else rng.choice([1, 2])
     if kind == "fault":
         nacq = rng.choice([1, 2, 2, 3, 3])      # "a later fault-free acquisition is complete and correct" needs later acquisitions
     meta = dict(kind=kind, cams=cams, ring=ring, streams=streams, acqs=[])
     mon_started = False
     mon_streams = set()
+    prev_acq = None
     for a in range(nacq):
         acq = {}
-        for s in streams:
+        reuse = (prev_acq is not None and kind in ("abort", "basic", "monitor") and rng.random() < 0.25
+                 and all(prev_acq[s]["n"] >= 0 for s in streams))
+        if reuse:
+            # start again from Armed WITHOUT another configure (the configuration persists): what an earlier stop or abort left
+            # behind -- flags, requests nobody consumed -- must not reach this acquisition; and a second abort in a row sometimes
+            acq = {s: dict(n=prev_acq[s]["n"], avg=prev_acq[s]["avg"], delay=prev_acq[s]["delay"]) for s in streams}
+            if kind == "abort" and rng.random() < 0.3:
+                prog.append("abort")
+                prog.append("state")
+        for s in ([] if reuse else streams):
             n = rng.choice([0, 1, 2, 3, 5, 8, 13, 21, rng.randint(1, 40)])
             avg = 0
             if kind == "abort" and rng.random() < 0.25:
@@ -238,7 +254,9 @@ def scenario(rng, kind):
                 n = -1
             acq[s] = dict(n=n, avg=avg, delay=delay)
             prog.append("cfg %d cam=%s sto=%s n=%d avg=%d delay=%g" % (s, "AB"[s], "AB"[s], n if n >= 0 else (1 << 40), avg, delay))
-        prog.append("configure")
+        if not reuse:
+            prog.append("configure")
+        prev_acq = acq
         if kind == "fault" and (a == 0 or rng.random() < 0.5):
             s = rng.choice(streams)
             n = acq[s]["n"]
@@ -909,6 +927,8 @@ def shape_code(w, h, t, sz):
 def in_model_scope(prog):
     """Grammar G1 of the Coq model: averaging off; the two streams never use the same device at the same time (any stream may
     use either device pair, or an unopenable device); configure / start only between acquisitions (checked on the log by to_events)."""
+    if any(l.startswith("camempty") for l in prog):
+        return False, "camera frame calls that return no frame (not in the model)"
     cur = {0: (None, None), 1: (None, None)}
     for l in prog:
         w = l.split()
